@@ -185,6 +185,11 @@ def inj_terms_differ(rnd):
 
 def _with_part(s, out, parts, lo=None):
     b = s.clone()
+    # the entries of a partitioning section may be written in any order: half the specs
+    # (chosen by content, so that both orders occur for hosts and for violations) reversed
+    import zlib
+    if len(parts) > 1 and zlib.crc32(repr(list(parts.items())).encode()) % 2:
+        parts = dict(reversed(list(parts.items())))
     b.partitioning = {out: parts}
     if lo is not None:
         b.loop_order = {out: lo}
